@@ -190,6 +190,28 @@ pub fn drive(args: &Args) -> i32 {
             }
         }
     }
+    // "conversions are monotone": ascending chains of serials across every special point (the fictitious
+    // 1900-02-29 above all: less than half a millisecond below serial 60 rounds to the instant of serial
+    // 60 and must not fall back before 59.x), one event per consecutive pair, both results logged
+    for sys in [1900u32, 1904] {
+        for day in [0i64, 1, 58, 59, 60, 61, 1461, 1462, 25_569, 44_000] {
+            let d = day as f64;
+            let chain = [d - 1.0 + 0.5, d - 1.0 + 86_399_000.0 / DAY_MS, d - 1.0 + 86_399_999.4 / DAY_MS, d - 1.0 + 86_399_999.6 / DAY_MS,
+                         d - 1e-9, d - 1e-11, d, d + 0.4 / DAY_MS, d + 0.6 / DAY_MS, d + 1e-9, d + 0.5, d + 1.0];
+            // serials in [60, 61) of the 1900 system name the fictitious day: the statement fixes no calendar
+            // value for them (see the assumptions), so they are left out and their neighbours compared directly
+            let chain: Vec<f64> = chain.iter().copied().filter(|f| !(sys == 1900 && *f >= 60.0 && *f < 61.0)).collect();
+            for w in chain.windows(2) {
+                if w[0] < 0.0 || w[0] > w[1] { continue; }
+                let side = |f: f64| match convert(f, sys == 1904, None) {
+                    Ok(Some(dt)) => json!({"ymd": ymd(&dt), "t": hms(&dt)}),
+                    Ok(None) => json!({"ymd": [], "t": [], "none": true}),
+                    Err(m) => json!({"ymd": [], "t": [], "problem": m}),
+                };
+                writeln!(o, "{}", json!({"e": "mono", "sys": sys, "lo_serial": format!("{:.12}", w[0]), "hi_serial": format!("{:.12}", w[1]), "lo": side(w[0]), "hi": side(w[1])})).unwrap();
+            }
+        }
+    }
     let nfrac = if full { 4000 } else { 250 };
     for i in 0..nfrac {
         let sys = if i % 2 == 0 { 1900 } else { 1904 };
